@@ -271,6 +271,16 @@ def sampling(tier, rng, rep):
                 red = W.simplify_word(w)
                 if not np.all(np.abs(np.asarray(r[red], dtype=complex) - got) <= 1e-6 * scale * max(1, len(w)) ** 2):
                     rep.fail("free_reduction_keeps_image", f"{w!r} -> {red!r}", {**inp, "word": w}); return
+            # the caller owns what a lookup returns: editing it in place does not change the representation
+            for w in letters[:2] + [""]:
+                got = r[w]
+                keep = np.array(got, copy=True)
+                try:
+                    got[...] = 0
+                except (TypeError, ValueError):
+                    continue
+                if not np.all(np.abs(np.asarray(r[w], dtype=complex) - keep) <= 1e-12 * max(1.0, np.max(np.abs(keep)))):
+                    rep.fail("word_image_is_product", f"the image of {w!r} changed after the caller edited the matrix an earlier lookup returned", {**inp, "word": w}); return
             batch = np.asarray(r.elements(ws[:5]), dtype=complex)
             for i_, w in enumerate(ws[:5]):
                 if not np.all(np.abs(batch[i_] - np.asarray(r[w], dtype=complex)) <= 1e-9 * max(1.0, np.max(np.abs(batch[i_])))):
